@@ -399,6 +399,7 @@ def run_c20(prop, run, outdir, bins, seed, V, REPO):
     ext = json.loads(fp.stdout)
     open(os.path.join(outdir, 'footprint.json'), 'w').write(fp.stdout)
     nviol, checked, drift = 0, 0, 0
+    suspects = {}
     def violation(msg, detail):
         nonlocal nviol
         nviol += 1
@@ -417,8 +418,10 @@ def run_c20(prop, run, outdir, bins, seed, V, REPO):
             elif sym.startswith('global_error'):
                 if 'r' in kinds or 'a' in kinds or ('w' in kinds and not allowed_w(f, sym)):
                     violation('%s accesses the global error position with kinds "%s" (only parse entry points write it, only cJSON_GetErrorPtr reads it)' % (f, kinds), {f: accs})
-            elif set(kinds) & {'w', 'a'} or 'rw' in kinds:
-                violation('%s writes (or takes the address of) the writable static object %s, which is shared by all threads' % (f, sym), {f: accs, 'object': ext['inventory'].get(sym)})
+            elif 'w' in kinds:
+                violation('%s writes the writable static object %s, which is shared by all threads' % (f, sym), {f: accs, 'object': ext['inventory'].get(sym)})
+            elif 'a' in kinds:
+                suspects.setdefault(sym, f)      # address taken: a store through the pointer cannot be seen statically; decided by the ThreadSanitizer runs
             else:
                 drift += 1
     newobjs = sorted(set(ext['inventory']) - KNOWN_OBJECTS)
@@ -447,6 +450,9 @@ def run_c20(prop, run, outdir, bins, seed, V, REPO):
         reports = r.stderr.split('WARNING: ThreadSanitizer: ')[1:]
         for rep in reports:
             m = re.search(r"Location is global '([^']+)'", rep)
+            if m and m.group(1) in suspects:
+                violation('ThreadSanitizer: unsynchronised conflicting accesses to the static object %s, whose address %s takes' % (m.group(1), suspects[m.group(1)]), {'object': m.group(1)})
+                suspects.pop(m.group(1))
             if m and m.group(1).startswith('global_error'):
                 races_err += 1
             else:
@@ -458,7 +464,7 @@ def run_c20(prop, run, outdir, bins, seed, V, REPO):
                     loc = m.group(1) if m else (re.search(r'Location is ([^\n]+)', rep).group(1) if re.search(r'Location is ([^\n]+)', rep) else 'unknown location')
                     out.append('VIOLATION property=C20 replay=%s :: ThreadSanitizer: unsynchronised conflicting accesses to %s (not the documented global error position)' % (rp, loc))
     res['stats'] = {'cases': checked + tsan_sets, 'nontrivial': checked + tsan_sets, 'drift': drift, 'violations': len(out), 'public_functions_checked': checked,
-                    'new_writable_objects': newobjs, 'tsan_program_sets': tsan_sets, 'tsan_reports_on_global_error': races_err, 'tsan_reports_elsewhere': races_other}
+                    'new_writable_objects': newobjs, 'address_taken_only_objects': sorted(suspects), 'tsan_program_sets': tsan_sets, 'tsan_reports_on_global_error': races_err, 'tsan_reports_elsewhere': races_other}
     res['stdout'] = '\n'.join(out) + ('\n' if out else '')
     res['wall_s'] = round(time.time() - t0, 1)
     return res
